@@ -1047,6 +1047,7 @@ int32_t tls13WriteCookie(ssl_t *ssl,
         cookieLen = psGetOutputBlockLength(tls13GetCipherHmacAlg(ssl));
         if (cookieLen < 0)
         { /* errorCode returned for unknown hmac */
+            psDynBufUninit(&cookieBuf);
             return cookieLen;
         }
     }
